@@ -1158,6 +1158,28 @@ func (g *gen) sliceWindow() {
 	if !wrote || g.chance(50, "swstore") {
 		e, _ := g.expr(8, typeMax(8), 1)
 		g.line("s0[%d] = %s", g.draw(0, k, "swk2"), e)
+		// ... then something that may overwrite the storage s0 aliases, then more statements: no fact about an
+		// element of s0 may survive it (fixed findings K2d / K2e)
+		if g.chance(45, "swdisturb") {
+			done := false
+			if len(g.helps) > 0 && g.chance(50, "swhelp") {
+				a, _ := g.expr(32, typeMax(32), 1)
+				g.line("this.%s!(a: %s)", g.helps[g.draw(0, len(g.helps)-1, "swh")], a)
+				done = true
+			}
+			if !done {
+				for _, o := range bytes {
+					if o.name != ar.name && o.n == ar.n {
+						g.line("%s = %s", ar.name, o.name)
+						done = true
+						break
+					}
+				}
+			}
+			if done {
+				g.stmt(0)
+			}
+		}
 	}
 	g.depth--
 	g.line("}")
